@@ -21,7 +21,8 @@ Oracles (from the harness' own invoke / admission events; `_items` is never read
   that left the window less than 2 ticks ~ 1.9 us ago still count, a tolerance that exact arithmetic never
   needs).  Because every clock advance is preceded by such an instant this is "admitted no later than the
   first instant at which the window has room".  Who gets in first is not asserted.  A limiter that spins
-  at one instant without admitting (step cap reached) is judged by the same condition at that instant.
+  at one instant without admitting (step cap of 6000 callbacks reached; healthy runs need < 800) is judged
+  by the same condition at that instant, without tolerance (the instant is an exact grid point).
 * every entrant is admitted eventually (bounded by the run's horizon).
 
 Sensitivity (mutants of hail/python/hailtop/utils/rate_limiter.py in a scratch copy, HAIL_REPO_ROOT; quick budget):
@@ -30,7 +31,7 @@ Sensitivity (mutants of hail/python/hailtop/utils/rate_limiter.py in a scratch c
 * `len(self._items) <= self._count` (admits count+1)      -> caught  C24/rate/more_than_count_in_window
 * expiry against `now - window/2`                         -> caught  C24/rate/more_than_count_in_window
 * sleeps a whole window instead of the remaining time     -> caught  C24/asap/blocked_with_room_in_window
-* never expires (`while` loop removed)                    -> caught  C24/asap/blocked_with_room_in_window
+* never expires (`while` loop removed)                    -> caught  C24/asap/blocked_with_room_in_window (negative sleep: spins)
 * `while` -> `if` in the expiry loop                      -> not caught: behaviour-equivalent (the deque never holds more
                                                              than `count` items and one pop is enough to admit)
 """
